@@ -1,4 +1,4 @@
-import Lt.Ttl
+import RedisGoModel.Exec.Ttl
 /-! Prototype: a vertical slice of the sequential design. Six commands (GET, SET, APPEND, DEL, EXPIRE, TTL) as block
     programs; an independent specification that reads the keyspace only through the time-aware `live` view; per
     command the three obligations of the design (`TTLChecked`, `FalseIsMissing`, refinement of the specification);
